@@ -220,6 +220,9 @@ Calls == \/ \E n \in {1, 2} : \E tb \in BOOLEAN : \E dv \in Sub({1}) : \E dt \in
          \/ \E on \in BOOLEAN : \E v \in Sub({1}) : \E t \in Sub({2}) : (v \cup t # {}) /\ CallFlags(on, v, t)
 Next == Calls \/ Micro
 Spec == Init /\ [][Next]_vars
+(* liveness of the protocol itself: with the micro-steps weakly fair, every public call returns (normally or with an exception) *)
+FairSpec == Spec /\ WF_vars(Micro)
+Returns  == (pc # "idle") ~> (pc = "idle")
 
 ---------------------------------------------------------------------------
 (* the properties, evaluated when a call has just returned (ret describes it) *)
